@@ -341,7 +341,27 @@ impl ParseWarningKind {
                 pltotf_message: "The design size must be at least 1".into(),
                 pltotf_section: (88, 1),
             },
-            _ => todo!("unhandled {self:?}"),
+            DecimalNumberIsTooBig => Data {
+                rule: "decimal numbers must be smaller than 2048 in absolute value".into(),
+                problem: "this number is too big".into(),
+                action: "0 will be used instead",
+                pltotf_message: "Real constants must be less than 2048".into(),
+                pltotf_section: (64, 1),
+            },
+            LigTableIsTooBig => Data {
+                rule: format!["the lig table can contain at most {} instructions", super::MAX_LIG_KERN_INSTRUCTIONS],
+                problem: "too many lig/kern instructions".into(),
+                action: "this instruction will be ignored",
+                pltotf_message: "Sorry, LIGTABLE too long for me to handle".into(),
+                pltotf_section: (101, 1),
+            },
+            NotReallySevenBitSafe => Data {
+                rule: "a font declared seven-bit-safe cannot reach characters >= 128 from characters < 128".into(),
+                problem: "the font is not seven-bit-safe".into(),
+                action: "the flag will be set to false",
+                pltotf_message: "The font is not really seven-bit-safe!".into(),
+                pltotf_section: (110, 1),
+            },
         }
     }
 }
